@@ -1,6 +1,8 @@
 import OmplModel.Model.Copy
 import OmplModel.Proofs.CopyArchive
 import OmplModel.Proofs.CopyState
+import OmplModel.Proofs.CopyCsd
+import OmplModel.Proofs.CopyCommon
 /-!
 C09 — copies and persisted data reproduce states and planner graphs exactly.
 
@@ -90,14 +92,41 @@ example : copyFromReals (.compound 0 [.discrete 1, .real 2 2]) (.comp [.leaf [.i
 
 /-! ## partial copies -/
 
-/-- result code of the recursive `copyStateData`: `ALL_DATA_COPIED` exactly when the source is covered by
-same-named subspaces of the destination -/
-theorem copyStateData_result_all (D : Sp) (d : St) (S : Sp) (s : St) (hd : fits D d = true) (hs : fits S s = true) :
-    (csd D d S s).2 = .all ↔ covered D S :=
-  csd_all_fits D d S s hd hs
+/-- `copyStateData(destS, dest, sourceS, source)` (the recursive overload) transfers **exactly the common subspaces**:
+the resulting destination is `specCsd` — top-down over the destination, a node whose name occurs in the source is
+replaced by the source's substate of that name, any other compound is descended into, any other leaf is untouched.
+Hypotheses: every name occurs once in each space (`NodupNames`), equally named nodes of the two spaces are the same
+space (`Coherent`: OMPL matches subspaces by name only), both states fit.  Each hypothesis is necessary
+(`csd_state_needs_nodup_source`, `…_nodup_dest`, `…_coherent` in `Proofs/CopyCsd.lean`, by `decide`). -/
+theorem copyStateData_transfers_common (D : Sp) (d : St) (S : Sp) (s : St) (hnD : NodupNames D) (hnS : NodupNames S)
+    (hc : Coherent D S) (hd : fits D d = true) (hs : fits S s = true) :
+    (csd D d S s).1 = specCsd S s D d ∧ fits D (csd D d S s).1 = true ∧
+    (∀ x ∈ nodes D, x.name ∈ names S → findState D (csd D d S s).1 x.name = findState S s x.name) ∧
+    (∀ x ∈ nodes D, (∀ nm ∈ names x, nm ∉ names S) → findState D (csd D d S s).1 x.name = findState D d x.name) :=
+  ⟨csd_state D d S s hnD hnS hc hd hs, csd_fits D d S s hnD hnS hc hd hs,
+   fun x hx hn => csd_common D d S s hnD hnS hc hd hs x hx hn,
+   fun x hx hn => csd_frame D d S s hnD hnS hc hd hs x hx hn⟩
+
+/-- pos/vel: two shared components of equal dimension are both transferred, the third component is untouched -/
+example : csd (.compound 0 [.real 1 2, .real 2 2, .so2 3]) (.comp [.leaf [.f64 0, .f64 0], .leaf [.f64 0, .f64 0], .leaf [.f64 9]])
+    (.compound 7 [.real 2 2, .real 1 2]) (.comp [.leaf [.f64 3, .f64 4], .leaf [.f64 1, .f64 2]])
+    = (.comp [.leaf [.f64 1, .f64 2], .leaf [.f64 3, .f64 4], .leaf [.f64 9]], .all) := by rfl
+
+/-- the complete result code of the recursive `copyStateData`: `ALL_DATA_COPIED` iff the source is covered by
+same-named subspaces of the destination; otherwise `SOME_DATA_COPIED` iff some node of the source has its name in the
+destination **or is an empty compound** (0 of 0 components copied counts as "all of it": the corner case found by the
+proof attempt, `csd_empty_compound_source_all`); otherwise `NO_DATA_COPIED` -/
+theorem copyStateData_result_code (D : Sp) (d : St) (S : Sp) (s : St) (hd : fits D d = true) (hs : fits S s = true) :
+    ((csd D d S s).2 = .all ↔ covered D S) ∧
+    ((csd D d S s).2 = .some ↔ touched D S ∧ ¬ covered D S) ∧
+    ((csd D d S s).2 = .none ↔ ¬ touched D S) :=
+  ⟨csd_all_fits D d S s hd hs, csd_some_fits D d S s hd hs, csd_none_fits D d S s hd hs⟩
 
 example : (csd (.compound 1 [.real 2 1, .so2 3]) (.comp [.leaf [.f64 0], .leaf [.f64 0]])
     (.compound 9 [.so2 3]) (.comp [.leaf [.f64 5]])) = (.comp [.leaf [.f64 0], .leaf [.f64 5]], .all) := by rfl
+
+example : (csd (.real 1 1) (.leaf [.f64 0]) (.compound 2 [.compound 3 [], .so2 4]) (.comp [.comp [], .leaf [.f64 1]])).2 = .some := by
+  decide
 
 /-- result code of the overload with a list of subspace names -/
 theorem copyStateData_names_result (D : Sp) (d : St) (S : Sp) (s : St) (names : List Nat) :
@@ -108,6 +137,52 @@ theorem copyStateData_names_result (D : Sp) (d : St) (S : Sp) (s : St) (names : 
 
 example : (csdNames (.compound 1 [.real 2 1, .so2 3]) (.comp [.leaf [.f64 0], .leaf [.f64 0]])
     (.compound 9 [.so2 3]) (.comp [.leaf [.f64 5]]) [3, 7]).2 = .some := by decide
+
+/-- the overload with a list of names transfers exactly the named subspaces found in both spaces (for names whose
+destination nodes are not nested in one another): each such destination substate becomes the source's, every
+substate away from them is unchanged, the result fits -/
+theorem copyStateData_names_transfers {D S : Sp} {d s : St} (ctx : CopyCtx D S s) (hd : fits D d = true)
+    (names : List Nat) (hnn : NonNested D S names) :
+    fits D (csdNames D d S s names).1 = true ∧
+    (∀ n ∈ names, ∀ dc sc, findSub (substateLocs D) n = some dc → findSub (substateLocs S) n = some sc →
+      (csdNames D d S s names).1.sub dc = s.sub sc) ∧
+    (∀ q, (∀ n ∈ names, nameFound D S n = true → ∀ dc, findSub (substateLocs D) n = some dc → Incomp dc q) →
+      (csdNames D d S s names).1.sub q = d.sub q) :=
+  csdNames_state ctx hd names hnn
+
+/-- `getCommonSubspaces`: every returned space is a node of the destination whose name is a key of both maps; every
+common name is returned or covered by a returned space (**no common subspace is lost**, whatever its dimension); no
+returned space is covered by another; the names are distinct -/
+theorem commonSubspaces_complete_minimal {D S : Sp} (hDw : ∀ nm s, D ≠ .wrapper nm s) (hD : (spNames D).Nodup) :
+    (∀ x ∈ commonSubspaces D S, IsNode D x ∧ nameFound D S x.name = true) ∧
+    (∀ n, nameFound D S n = true → ∃ chain node, findSub (substateLocs D) n = some chain ∧
+      nodeAt D chain = some node ∧ node.name = n ∧ ∃ r ∈ commonSubspaces D S, covers r node = true) ∧
+    (∀ it ∈ commonSubspaces D S, ∀ jt ∈ commonSubspaces D S, jt.name ≠ it.name → covers it jt = false) ∧
+    ((commonSubspaces D S).map Sp.name).Nodup :=
+  commonSubspaces_spec hDw hD
+
+/-- the ordered set keeps two subspaces apart unless they have the same name: what a dimension-only comparator breaks -/
+theorem commonSubspaces_set_keeps_names (x : Sp) (l : List Sp) (n : Nat) :
+    n ∈ (cslInsert x l).map Sp.name ↔ n = x.name ∨ n ∈ l.map Sp.name :=
+  cslInsert_names x l n
+
+example : (commonSubspaces (.compound 0 [.real 2 2, .real 3 2, .so3 4]) (.compound 9 [.real 3 2, .real 2 2])).map Sp.name
+    = [3, 2] := by decide
+example : (cslInsertWith dimOnlyLess (.so2 1) [.time 2]).map Sp.name = [2] := by decide   -- the seeded defect class
+
+/-- what `SubspaceStateSampler` does — `copyStateData(dest, src, getCommonSubspaces(...))` — reports
+`ALL_DATA_COPIED` and leaves **every** node of the destination whose name occurs in the source with the source's
+substate (also the nodes erased as covered and compounds covered only piecewise) -/
+theorem copyStateData_common_complete {D S : Sp} {d s : St} (ctx : CopyCtx D S s) (hD : (spNames D).Nodup)
+    (hS : (spNames S).Nodup) (hd : fits D d = true) :
+    (csdNames D d S s ((commonSubspaces D S).map Sp.name)).2 = .all ∧
+    (∀ q sq x, nodeAt D q = some x → findSub (substateLocs S) x.name = some sq →
+      (csdNames D d S s ((commonSubspaces D S).map Sp.name)).1.sub q = s.sub sq) ∧
+    (∀ q, (∀ x ∈ commonSubspaces D S, ∀ dc, findSub (substateLocs D) x.name = some dc → Incomp dc q) →
+      (csdNames D d S s ((commonSubspaces D S).map Sp.name)).1.sub q = d.sub q) :=
+  ⟨(csdNames_common_state ctx hd).1,
+   fun q sq x hx hsq => csdNames_common_complete ctx hD hS hd q sq x hx hsq,
+   (csdNames_common_state ctx hd).2.2.2⟩
 
 /-! ## state archives -/
 
